@@ -58,5 +58,56 @@ CHECKS = {
 PENDING = "check under construction in this round (model and theorems not yet registered); not a statement that the technique cannot apply"
 NOT_APPLICABLE = {k: PENDING for k in ("C02", "C06", "C07", "C08", "C09", "C10", "C11", "C13", "C14", "C15", "C18", "C20")}
 
+CHECKS.update({
+    "C02": dict(category="translation_validation",
+                text="Reader model vs real reader on every encoding incl. per-segment object lists after the whole file (aliasing); oracle: real read of an encoding equals "
+                     "real read of its explicit normal form produced by the Lean spec, forbidden encodings are rejected; exhaustive small scope in the thorough tier. "
+                     "Refinement theorem for the metadata state machine not yet registered.",
+                level_note=COMMON_NOTE, technique="Lean 4 executable model + normal-form oracle + small-scope enumeration"),
+    "C06": dict(category="translation_validation",
+                text="Reader and lazy models on every prefix of generated files vs the real reader; oracle: no exception, prefix of the uncut read, whole segments kept, "
+                     "len = values, lazy = eager, file_status exact. Truncation theorem not yet registered.",
+                level_note=COMMON_NOTE, technique="Lean 4 executable model + exhaustive cut enumeration per file + prefix oracle"),
+    "C07": dict(category="translation_validation",
+                text="Lean writer model (object insertion/order, metadata, raw index, property typing, data serialisation, _infer_dtype) equals the real TdmsWriter byte for byte "
+                     "(data and index); oracle: real write -> real read = promised content incl. TDMS type of every property via the strict parser. Headline theorems not yet registered.",
+                level_note=COMMON_NOTE, technique="Lean 4 executable model + byte-equality correspondence + read-back oracle"),
+    "C08": dict(category="translation_validation",
+                text="Strict structural parser written from the format description (lean/Tdms/Spec/Parse.lean, not the reader model) applied to the bytes the real writer emits: "
+                     "offsets, every length field, metadata extent, data length, string offset tables, root first, groups before channels, index twin. Theorem that the writer "
+                     "model always satisfies the strict parser not yet registered.",
+                level_note=COMMON_NOTE, technique="Lean 4 strict parser as oracle + byte-equality correspondence of the writer model"),
+    "C09": dict(category="translation_validation",
+                text="Reader model walking an index file vs the real reader with a .tdms_index beside the data file (also shorter data, index only); oracle: read/open/read_metadata "
+                     "identical with and without index (spec-encoder index and TdmsWriter index), index-only gives the same metadata and refuses data reads.",
+                level_note=COMMON_NOTE, technique="Lean 4 executable model + differential correspondence + with/without-index oracle"),
+    "C10": dict(category="translation_validation",
+                text="Lean defragment (reader model composed with writer model) reproduces the real TdmsWriter.defragment output byte for byte; oracle: real read of source vs "
+                     "destination (groups, channels, properties, lengths, raw values, dtype, scaled data).",
+                level_note=COMMON_NOTE, technique="Lean 4 executable model (composition) + byte-equality correspondence + content oracle"),
+    "C11": dict(category="translation_validation",
+                text="Reader/lazy models vs real reader on generated DAQmx files (multi-buffer, padding, digital lines, both byte orders, cuts); oracle: direct byte arithmetic on the "
+                     "generated buffers, lazy windows and chunk streams = slices of eager, truncated chunks give complete rows only.",
+                level_note=COMMON_NOTE, technique="Lean 4 executable model + differential correspondence + byte-arithmetic oracle"),
+    "C15": dict(category="translation_validation",
+                text="Same content encoded all-little, all-big and mixed by the Lean spec (DAQmx at scaler-value level) reads identically through the real reader and the model.",
+                level_note=COMMON_NOTE, technique="Lean 4 spec encoder + executable model + pairwise oracle"),
+    "C18": dict(category="proof",
+                text="The complete thermocouple tables are regenerated from the source as exact rationals on every run; kernel-checked: forward tables = vendored NIST tables, pieces "
+                     "partition ℚ (total, never NaN, inclusive start/exclusive end), forward function = NIST polynomial (+ exponential term for K) on every NIST piece, boundary "
+                     "continuity bounds evaluated exactly, direction/units/defaults of ThermocoupleScaling; the exp enclosure for type K is proved sound over ℝ (Mathlib). "
+                     "Monotonicity and inverse error are grid-level (`_partial`, 501 rational points per type). Dense float sweep of the real code against the vendored reference.",
+                level_note=COMMON_NOTE + "NIST's stated inverse errors are unavailable offline: measured maxima are used and named as such.",
+                technique="Lean 4 proof (decide +kernel over regenerated tables, induction for the partition) + translator + dense sweep"),
+    "C20": dict(category="proof",
+                text="Ownership state machine of reader and writer: the reachable state space is computed, shown closed under every operation in the kernel, and no-leak / "
+                     "caller-streams-untouched / closed-reads-fail / close-idempotent are proved for every source kind and every operation sequence; the model's predicted open "
+                     "handles are compared with /proc/self/fd around every API step of the real code under injected faults.",
+                level_note=COMMON_NOTE + "The OS side (descriptor table) is observed, not modelled. TdmsFile.open raising is out of scope (observation).",
+                technique="Lean 4 proof (finite reachable set closed under steps + induction over op lists) + descriptor accounting"),
+})
+for _k in ("C02", "C06", "C07", "C08", "C09", "C10", "C11", "C15", "C18", "C20"):
+    NOT_APPLICABLE.pop(_k, None)
+
 NOTES = ("Properties move from not_applicable to checks as their model, correspondence and theorems are built; a check is claimed at `proof` only when its "
          "headline theorems are registered in lean/obligations.json. See DESIGN.md.")
